@@ -6,7 +6,9 @@ import gen_json as G
 import pipelib as PL
 
 FIELDS = ["a", "b", "c", "d", "e"]
-NASTY = ['"', ',', '\r', '\n', '\t', ' ', 'é', 'x', '""', ', ', '\r\n', '日', "'", '\\', ';', '\U0001F603', '\U00010000']
+NASTY = ['"', ',', '\r', '\n', '\t', ' ', 'é', 'x', '""', ', ', '\r\n', '日', "'", '\\', ';', '\U0001F603', '\U00010000',
+         # control characters without a short escape, the ones with one, DEL and the line separators: inside an array or object they are part of a JSON text
+         '\x1b', '\x00', '\x1f', '\x01', '\x08', '\x0c', '\x7f', '\u2028', '\x1b[0m']
 
 
 def rand_str(rnd, forbid=""):
